@@ -37,5 +37,9 @@ func VerifConstants() map[string]string {
 	put("markLength", markLength)
 	put("macLength", macLength)
 	put("inlineSeedFrameLength", inlineSeedFrameLength)
+	put("stateFile", stateFile)
+	put("bridgeFile", bridgeFile)
+	put("certSuffix", certSuffix)
+	put("certLength", certLength)
 	return m
 }
